@@ -1,6 +1,7 @@
 import MythVerif.Model.WsQueue
 /-! x86-TSO model of the work-stealing queue: owner `push` / `pop` (all paths: lock-free fast
-    path, locked slow path, reset) against any number of thieves running `myth_queue_take`.
+    path, locked slow path, reset) and owner `put` (base-side insert under the lock) against any
+    number of thieves running `myth_queue_take`.
 
     Machine (DESIGN 3.2 / A.3): one FIFO store buffer per participant; a store appends to the
     own buffer; a load forwards from the newest own buffered store to that location, else reads
@@ -16,8 +17,14 @@ import MythVerif.Model.WsQueue
     machine for a lost or duplicated element (the violation search for "missing fence" changes,
     which SC interleavings cannot exhibit).
 
-    Not modelled here (the `_partial` in the theorem name): trypass / put / peek / wsapi
-    functions, the steal cache, re-centring (a push at `top == size` goes to `stuck`). -/
+    The base-side insertion (put) linearizes at the DRAIN of their `base` store (DESIGN A.3):
+    that store is the buffer entry `Sto.baseI v e`, a store of `v` to `base` carrying the ghost tag
+    `e` (the element whose slot store precedes it in the same FIFO buffer); draining it conses `e`
+    to the abstract deque.
+
+    Not modelled here (the `_partial` in the theorem name): trypass / peek / wsapi functions, the steal
+    cache, clear, re-centring (a push at `top == size` goes to `stuck`, a put at `base == 0` goes
+    to `stuckL` – still holding the lock, as the code does while it re-centres). -/
 namespace MythVerif.WsqTso
 open MythVerif.Wsq
 
@@ -36,6 +43,7 @@ inductive Sto where
   | base (v : Int)
   | ptr (i : Int) (x : Option Elem)
   | unlock
+  | baseI (v : Int) (e : Elem)       -- store of `base` by put (ghost tag: the element inserted)
   deriving DecidableEq, Repr
 
 inductive OPc where
@@ -58,6 +66,13 @@ inductive OPc where
   | po7                              -- q->top = size/2
   | po8                              -- q->base = size/2
   | po9                              -- unlock
+  | stuckL                           -- put at base == 0 (re-centring is outside this model; lock held)
+  | ptl (e : Elem)                   -- lock CAS
+  | pt1 (e : Elem)                   -- if (q->base == 0)
+  | pt6 (e : Elem)                   -- b = q->base
+  | pt7 (e : Elem) (b : Int)         -- q->ptr[b-1] = th
+  | pt8 (e : Elem) (b : Int)         -- q->base = b-1
+  | pt9                              -- unlock
   deriving DecidableEq, Repr
 
 inductive TPc where
@@ -106,28 +121,33 @@ def viewTop : List Sto → Int → Int
   | .base _ :: r, m => viewTop r m
   | .ptr _ _ :: r, m => viewTop r m
   | .unlock :: r, m => viewTop r m
+  | .baseI _ _ :: r, m => viewTop r m
 def viewBase : List Sto → Int → Int
   | [], m => m
   | .base v :: r, _ => viewBase r v
   | .top _ :: r, m => viewBase r m
   | .ptr _ _ :: r, m => viewBase r m
   | .unlock :: r, m => viewBase r m
+  | .baseI v _ :: r, _ => viewBase r v
 def viewPtr : List Sto → (Int → Option Elem) → Int → Option Elem
   | [], m, i => m i
   | .ptr j x :: r, m, i => viewPtr r (upd m j x) i
   | .top _ :: r, m, i => viewPtr r m i
   | .base _ :: r, m, i => viewPtr r m i
   | .unlock :: r, m, i => viewPtr r m i
+  | .baseI _ _ :: r, m, i => viewPtr r m i
 
-/-- drain one store into memory (ghost `tr` follows the memory value of `base`) -/
+/-- drain one store into memory (ghost `tr` follows the memory value of `base`; the drain of an
+    inserting `base` store is the linearization point of put) -/
 def applySto (s : St) : Sto → St
   | .top v => { s with top := v }
   | .base v => { s with base := v, tr := decide (v = s.lb + 1) }
   | .ptr i x => { s with ptr := upd s.ptr i x }
   | .unlock => { s with lock := .free }
+  | .baseI v e => { s with base := v, tr := false, A := e :: s.A, lb := s.lb - 1, ins := e :: s.ins }
 
 inductive Lbl where
-  | oPush (e : Elem) | oPop | o | flushO
+  | oPush (e : Elem) | oPop | oPut (e : Elem) | o | flushO
   | tTake (p : Pid) | t (p : Pid) | flushT (p : Pid)
   deriving DecidableEq, Repr
 
@@ -183,6 +203,17 @@ def stepO (s : St) : Option St :=
   | .po7 => some { s with bufO := s.bufO ++ [.top (s.size / 2)], lt := s.size / 2, lb := s.size / 2, opc := .po8 }
   | .po8 => some { s with bufO := s.bufO ++ [.base (s.size / 2)], opc := .po9 }
   | .po9 => (releaseO s).map fun s' => { s' with opc := .idle }
+  | .stuckL => none
+  | .ptl e => if s.bufO.isEmpty then
+                match s.lock with
+                | .free => some { s with lock := .owner, opc := .pt1 e }
+                | _ => some s
+              else none
+  | .pt1 e => if viewBase s.bufO s.base = 0 then some { s with opc := .stuckL } else some { s with opc := .pt6 e }
+  | .pt6 e => some { s with opc := .pt7 e (viewBase s.bufO s.base) }
+  | .pt7 e b => some { s with bufO := s.bufO ++ [.ptr (b - 1) (some e)], opc := .pt8 e b }
+  | .pt8 e b => some { s with bufO := s.bufO ++ [.baseI (b - 1) e], opc := .pt9 }
+  | .pt9 => (releaseO s).map fun s' => { s' with opc := .idle }
 
 def stepT (s : St) (p : Pid) : Option St :=
   match s.tpc p with
@@ -216,6 +247,9 @@ def step (s : St) : Lbl → Option St
     | _ => none
   | .oPop => match s.opc with
     | .idle => some { s with opc := .pq }
+    | _ => none
+  | .oPut e => match s.opc with
+    | .idle => some { s with opc := .ptl e }
     | _ => none
   | .o => stepO s
   | .flushO => match s.bufO with
